@@ -132,7 +132,9 @@ fn count_fixed(mut n: ResMut<FixedRuns>) {
     n.0 += 1;
 }
 
-fn build(full: bool) -> App {
+/// `early`: the event type is first registered as an ordinary Bevy event and one event with that number is written BEFORE
+/// `add_client_event` (allowed: "can be used for regular events that were previously registered")
+fn build(full: bool, early: Option<u32>) -> App {
     let mut app = App::new();
     let plugins = RepliconPlugins
         .build()
@@ -143,6 +145,10 @@ fn build(full: bool) -> App {
     } else {
         // a dedicated server: built without the client-side plugins
         app.add_plugins((MinimalPlugins, plugins.disable::<ClientPlugin>().disable::<ClientEventPlugin>()));
+    }
+    if let Some(n) = early {
+        app.add_event::<CE0>();
+        app.world_mut().send_event(CE0(n));
     }
     app.insert_resource(TimeUpdateStrategy::ManualDuration(Duration::ZERO))
         .add_client_event::<CE0>(Channel::Ordered)
@@ -200,7 +206,8 @@ fn main() {
         match t[0] {
             "cfg" => {
                 full = t.get(1).copied() != Some("plugins=noclient");
-                app = Some(build(full));
+                let early = t.iter().find_map(|x| x.strip_prefix("early=")).and_then(|v| v.parse().ok());
+                app = Some(build(full, early));
                 dead = false;
                 out.push("scenario".into());
             }
